@@ -186,8 +186,8 @@ def build_harness(name, variant="asan", libs=("-lpcap", "-lcrypto", "-lpthread")
     """Compile harness/<name>.cpp against the freshly built libtins; returns the binary path."""
     lib = build_lib(variant)
     src = os.path.join(HARNESS, name + ".cpp")
-    common = sorted(glob.glob(os.path.join(HARNESS, "common", "*.h")))
-    flags = COMMON_FLAGS + VARIANTS[variant] + ["-I" + os.path.join(HARNESS, "common")] + list(extra_flags)
+    common = sorted(glob.glob(os.path.join(HARNESS, "common", "*.h")) + glob.glob(os.path.join(HARNESS, "*.h")))
+    flags = COMMON_FLAGS + VARIANTS[variant] + ["-I" + os.path.join(HARNESS, "common"), "-I" + HARNESS] + list(extra_flags)
     key = sha(lib, " ".join(flags), _read(src), *[_read(c) for c in common], " ".join(libs))
     d = os.path.join(BUILD, "h-%s-%s" % (name, key))
     exe = os.path.join(d, name)
